@@ -51,7 +51,11 @@ def render(path, node):
             out.append('include "%s"' % st[1])
         elif k == "decoy":
             style, text = st[1], st[2]
-            if style == "comment":
+            if style == "bscomment":
+                # a comment that ends in a backslash, directly in front of the file's first dependency statement
+                # (comments never continue onto the next line)
+                out.insert(0, "# " + text + " C:\\src\\include\\")
+            elif style == "comment":
                 out.append("# " + text)
             elif style == "string":
                 out.append("_s%d = %r" % (len(out), text))
@@ -116,13 +120,13 @@ def gen_tree(rng):
     def decoy():
         tgt = rng.choice(pxds)
         text = rng.choice(["cimport %s", "from %s cimport X", "include \"%s.pxi\"", "  cimport %s"]) % mod_of(tgt)
-        return ["decoy", rng.choice(["comment", "string", "docstring", "fstring"]), text]
+        return ["decoy", rng.choice(["comment", "string", "docstring", "fstring", "bscomment", "bscomment"]), text]
 
     def stmts_for(path, allow_include=True):
         st = _stmts_for(path, allow_include)
         if not path.endswith((".pyx", ".py")):
             for x in st:        # assignments are not valid in .pxd files: only comment decoys there
-                if x[0] == "decoy":
+                if x[0] == "decoy" and x[1] != "bscomment":
                     x[1] = "comment"
         return st
 
